@@ -29,6 +29,11 @@ CHECKS = {
    text="Model checking: Sandbox.tla models lookup by receiver over own properties, the receiver kind's fixed built-in list and the prototype chain; TLC explores all operation sequences over a small object graph (74k distinct / 4.2M generated states) and checks that two names unknown to every table are indistinguishable under every access form, that an unknown name never resolves to anything, and TypeOK. Conformance: TLC enumerates 22 receiver kinds x 18 access forms; the driver harvests EVERY attribute name of every class of microjs.values/vm/context/compiler, of live engine objects, and the host dunder vocabulary (~700 names on the current tree; names that C03.tla lists as JavaScript properties are classified as such), and runs each (receiver, form) once with the internal name and once with a fresh name: TLC judges the two observations equal kind-for-kind (name masked), no host function invoked unless the form calls it. Every corpus program and ~100-450 generated programs run with a hook that classifies each value becoming observable (operands of STORE_*, SET_PROP, RETURN, THROW, call arguments, literal elements) and each value returned to the embedder: TLC judges JsVal!TypeOK. Quick samples 100 names (36k pairs), thorough uses all (~280k pairs).",
    design_ref="DESIGN.md 5/C03",
    note="Trusted: TLC; the value classifier (harness/wire.py to_wire); the list Legit in C03.tla. A host exception that escapes identically for the internal and the fresh name is C04's business, not judged here."),
+ "C17": dict(
+   technique="TLA+ reference of Array.prototype / typed arrays (JsArray.tla, TypedArr.tla) with the array store as a state machine and scripted callback responders; TLC enumerates calls and histories, engine replay, TLC judges results, receiver snapshots, identities and callback logs (total trace spec for histories)",
+   text="Model checking: laws of the reference on every enumerated case (fresh vs same identity, splice/slice/length laws, sort = stable permutation with undefined last, codec laws for the nine element kinds incl. 13 hand-checked binary32 vectors, views stay inside their buffer) and the array store as a state machine (14 methods x receivers x responder tables, depth 2/3: density, reference integrity, frame condition; quick 7k, thorough 440k distinct states). Conformance: TLC enumerates (method, receiver, args) over 44 receivers of length 0..6 x the adversarial index grid, every callback method x every responder table of length <= 3 over {truthy, falsy, throw, push, pop, shorten}, sort over all short arrays x 10 comparators, typed-array scripts (9 kinds x stored-value grid, construction from length/array/buffer, two views of one buffer, set, subarray); the engine replays (~70k judged records in quick); TLC judges result or error class, identity, a snapshot of every array after the call and the callback log. Thorough adds seeded random histories validated event by event by a total trace specification.",
+   design_ref="DESIGN.md 5/C17, notes/C17.md",
+   note="Trusted: TLC, wire codec, JsArray/TypedArr as transcriptions of ECMA-262 under the documented stricter mode (dense arrays, out-of-bound writes are errors); comparator call sequences and the order produced by inconsistent comparators are not judged (implementation-defined)."),
 }
 NOT_APPLICABLE = {}
 ALL = ["C%02d" % i for i in range(1, 21)]
